@@ -4,6 +4,7 @@ package main
 
 import (
 	"fmt"
+	"os"
 	"go/types"
 	"strings"
 
@@ -95,6 +96,9 @@ func (b *B) EqRF(rule, construct, where string, got, want *RF, what string) bool
 }
 
 func clip(s string, n int) string {
+	if os.Getenv("GMSA_FULL") != "" {
+		return s
+	}
 	if len(s) > n {
 		return s[:n] + "…"
 	}
